@@ -14,7 +14,7 @@ Three things are done with every run:
   * correspondence with `Sim`, a Python rendering of Registry/MicroReal.v plus the control flow of the operations: it is
     driven by the run's sequence of granted threads and must predict every yield point reached, every on_close and the
     final contents of the registry;
-  * the micro-op list `Sim` produced is evaluated by Registry/MicroReal.v (`mrun fixed ops`, vm_compute) and the final
+  * the micro-op list `Sim` produced is evaluated by Registry/MicroReal.v (`rrun fixed ops`, vm_compute) and the final
     states are compared (ties `Sim` to the Coq model the theorems are about)."""
 import json
 
@@ -520,7 +520,7 @@ def run_leg(ctx, rep, binpath, fixed):
                 terms.append(("s%d" % b, "[%s]" % "; ".join(items)))
             prelude = ("Definition obs_of (n : nat) (st : rstate) := (map (fun s => (r_closed st s, r_marked st s, r_cleared st s, r_refs st s)) (seq 0 n), "
                        "r_bad st, rquiescent st).\n")
-            res = coq_eval(ctx, "From TV Require Import Registry.Micro Registry.MicroReal.\nFrom Coq Require Import List.\nImport ListNotations.",
+            res = coq_eval(ctx, "From TV Require Import Registry.Micro Registry.MicroReal.\nFrom Coq Require Import List NArith.\nImport ListNotations.",
                            terms, prelude=prelude, tag="sched")
             bad = []
             for b in range(0, len(coq_items), 50):
